@@ -16,5 +16,7 @@ def run(ctx):
     )
     r.not_decided = ["case handling inside Bio.Restriction.catalyse"]
     transcription_rule(ctx, "C18.case-flag")
+    from ..kernels import run_kernels
+    run_kernels(ctx, ["K0", "K15", "K14"], "C18")
     records = collect_walk_effects(ctx)
     case_taint_rule(ctx, "C18.case-taint", records)
